@@ -34,14 +34,13 @@ class ParseTree:
         start = []
         for i, son in enumerate(self.sons):
             end = [x.value for x in self.sons[i + 1:]]
-            derivation = []
             derivations = son.get_leftmost_derivation()
             if i != 0 and derivations and derivations[0]:
                 del derivations[0]
             for derivation in derivations:
                 res.append(start + derivation + end)
-            if derivation:
-                start = start + derivation
+            if derivations:
+                start = start + derivations[-1]
             else:
                 start.append(son.value)
         return res
@@ -64,13 +63,15 @@ class ParseTree:
         end = []
         for i, son in enumerate(self.sons[::-1]):
             start = [x.value for x in self.sons[:-1 - i]]
-            derivation = []
             derivations = son.get_rightmost_derivation()
             if i != 0 and derivations and derivations[0]:
                 del derivations[0]
             for derivation in derivations:
                 res.append(start + derivation + end)
-            end = derivation + end
+            if derivations:
+                end = derivations[-1] + end
+            else:
+                end = [son.value] + end
         return res
 
     def to_networkx(self):
